@@ -23,6 +23,8 @@ type bstep struct {
 	FMFault string   `json:"fm_fault,omitempty"`  // fault on the first back-end FindMissing of this step
 	PutOf   string   `json:"put_of,omitempty"`    // content whose back-end Put is faulted in this step
 	PutKind string   `json:"put_fault,omitempty"` // its fault kind
+	FMCode  string   `json:"fm_code,omitempty"`   // status code of an "error" fault
+	PutCode string   `json:"put_code,omitempty"`
 	Res     string   `json:"res"`
 	Reached []string `json:"reached,omitempty"`
 	Calls   int      `json:"calls"`
@@ -38,7 +40,7 @@ type bscript struct {
 
 func TestC09BatchedStoreFlush(t *testing.T) {
 	rec := simkit.NewRecorder(t, "C09", "batched_store_flush",
-		"rapid state machine over the real BatchedStoreBlobAccess alone: Put(blob from 8 contents, so duplicates within a batch are common) / flush() / FindMissing, batch size 1-5, upload concurrency 1-3 with generated transfer order, each step optionally arming an error, ctx-cancel or ctx-cancelled-but-ignored-by-the-back-end fault on the back end's next FindMissing and/or the Put of one chosen blob. Oracle: flush()==nil => every blob whose Put was acknowledged since the previous flush() is in the back end and no back-end fault happened since; a back-end fault since the previous flush() => flush() returns an error; a failed back-end call since the previous flush() => flush() returns an error; Put/flush fail only after a back-end fault or a cancellation (no spurious or stale errors); FindMissing issued by the adapter never exceeds the batch size; every buffer released exactly once (checked after every flush and refused Put, and at the end). NON-TRIVIAL = at least one fault reached and >=2 distinct blobs written; distinct by script hash")
+		"rapid state machine over the real BatchedStoreBlobAccess alone: Put(blob from 8 contents, so duplicates within a batch are common) / flush() / FindMissing, batch size 1-5, upload concurrency 1-3 with generated transfer order, each step optionally arming an error (status code drawn from 12 codes), ctx-cancel or ctx-cancelled-but-ignored-by-the-back-end fault on the back end's next FindMissing and/or the Put of one chosen blob. Oracle: flush()==nil => every blob whose Put was acknowledged since the previous flush() is in the back end and no back-end fault happened since; a back-end fault since the previous flush() => flush() returns an error; a failed back-end call since the previous flush() => flush() returns an error; Put/flush fail only after a back-end fault or a cancellation (no spurious or stale errors); FindMissing issued by the adapter never exceeds the batch size; every buffer released exactly once (checked after every flush and refused Put, and at the end). NON-TRIVIAL = at least one fault reached and >=2 distinct blobs written; distinct by script hash")
 	pool := contentPool
 	rapid.Check(t, func(rt *rapid.T) {
 		sc := bscript{
@@ -91,14 +93,26 @@ func TestC09BatchedStoreFlush(t *testing.T) {
 				w.ignoreCtx = false
 				st.FMFault = rapid.SampledFrom([]string{faultNone, faultNone, faultNone, faultNone, faultNone, faultNone, faultError, faultCancel, faultCancelIgnored}).Draw(rt, "fm_fault")
 				if st.FMFault != faultNone {
-					w.plan[fmt.Sprintf("FM#%d", w.fmCount)] = st.FMFault
+					k := fmt.Sprintf("FM#%d", w.fmCount)
+					w.plan[k] = st.FMFault
+					if st.FMFault == faultError {
+						c := rapid.SampledFrom(errorCodes).Draw(rt, "fm_code")
+						w.planCode[k], st.FMCode = c, c.String()
+						labels["armed_fm_error:"+st.FMCode] = true
+					}
 				}
 				if allowPutFault {
 					st.PutKind = rapid.SampledFrom([]string{faultNone, faultNone, faultNone, faultNone, faultError, faultCancel, faultCancelIgnored}).Draw(rt, "put_fault")
 					if st.PutKind != faultNone {
 						st.PutOf = rapid.SampledFrom(pool).Draw(rt, "put_fault_of")
 						dk := keyOf(digestOf([]byte(st.PutOf)))
-						w.plan[fmt.Sprintf("PUT:%s#%d", dk, w.putOcc[dk])] = st.PutKind
+						k := fmt.Sprintf("PUT:%s#%d", dk, w.putOcc[dk])
+						w.plan[k] = st.PutKind
+						if st.PutKind == faultError {
+							c := rapid.SampledFrom(errorCodes).Draw(rt, "put_code")
+							w.planCode[k], st.PutCode = c, c.String()
+							labels["armed_put_error:"+st.PutCode] = true
+						}
 					}
 				}
 				callsBefore := len(w.calls)
